@@ -184,7 +184,7 @@ def gen_frame(r, max_rows=12, max_cols=4, kinds=None):
     cols = [gen_column(r, names[i], n, kinds) for i in range(ncols)]
     index = None
     if r.chance(0.15) and n:
-        index = r.pick(['shifted', 'strings', 'reversed'])
+        index = r.pick(['shifted', 'strings', 'reversed', 'dups'])
     return {'columns': cols, 'nrows': n, 'index': index}
 
 
@@ -242,6 +242,8 @@ def build_frame(spec):
         df.index = ['r%d' % i for i in range(len(df))]
     elif idx == 'reversed':
         df.index = list(range(len(df) - 1, -1, -1))
+    elif idx == 'dups':
+        df.index = [i // 2 for i in range(len(df))]   # repeated labels
     return df
 
 
